@@ -1,11 +1,20 @@
 /-
   C17 — property theorems.  Statements in words: design/C17.md.
+
+  Part 1: the property for the specification functions (all interval lists, lengths, draws, operator sequences).
+  Part 2: the code as extracted from the clang AST (Gen.lean, interpreted at the machine types) IS the
+          specification – every `code_*` theorem is about the generated terms – hence has the property.
+  Part 3: ages at the machine type of the code: no wrap below 2^32.
+  Part 4: the strategy-level call sites (recombination::de::run / recombination::base::run).
+  Part 5: real genes inside the declared box under IEEE rounding (law structure).
 -/
-import Vita.C17.Lemmas
+import Vita.C17.Bridge
+import Vita.C17.Ieee
 import Vita.Common.RngLemmas
 namespace Vita.C17
+open Vita.C17.M Vita.C17.Code
 
-/-! ## integer vectors -/
+/-! ## Part 1 — specification -/
 
 /-- The contract assumed of an integer draw is met by the algorithm that produces it: libstdc++'s
     `uniform_int_distribution` on the xoshiro engine (as modelled in Vita/Common/Rng.lean and compared
@@ -14,17 +23,18 @@ theorem int_draw_in_range (r : Iv) (e : Vita.Rng.Xo) (h : r.lo < r.hi) (hw : r.h
     r.lo ≤ (Vita.Rng.between r.lo r.hi e).1 ∧ (Vita.Rng.between r.lo r.hi e).1 < r.hi :=
   Vita.Rng.between_in_range r.lo r.hi e h hw
 
-/-- creation: every gene of a new individual is inside the interval of its position -/
-theorem ga_create_in_range (rs : List Iv) (hd : Declared rs) (u : Nat → Nat) :
-    InRange rs (gaCreate rs u).genome := by
+/-- creation: every gene of a new individual is inside (one of) the interval(s) of its position -/
+theorem ga_create_in_range (ss : List Slot) (hd : Declared ss) (ch u : Nat → Nat) :
+    InRange ss (gaCreate ss ch u).genome := by
   refine ⟨by simp [gaCreate], ?_⟩
   intro i h h'
   simp only [gaCreate, List.getElem_mapIdx]
-  exact pick_in _ _ (hd _ (List.getElem_mem h'))
+  have := hd _ (List.getElem_mem h')
+  exact pickS_in _ _ _ this.1 (fun r hr => (this.2 r hr).1)
 
 /-- mutation (any probability, any draws) keeps every gene inside its interval and the length -/
-theorem ga_mutation_in_range (rs : List Iv) (hd : Declared rs) (flip : Nat → Bool) (u : Nat → Nat)
-    (x : Ga) (hx : InRange rs x.genome) : InRange rs (gaMutate rs flip u x).1.genome := by
+theorem ga_mutation_in_range (ss : List Slot) (hd : Declared ss) (flip : Nat → Bool) (ch u : Nat → Nat)
+    (x : Ga) (hx : InRange ss x.genome) : InRange ss (gaMutate ss flip ch u x).1.genome := by
   obtain ⟨hl, hx⟩ := hx
   refine ⟨by simp [gaMutate, mutGenome, hl], ?_⟩
   intro i h h'
@@ -32,13 +42,14 @@ theorem ga_mutation_in_range (rs : List Iv) (hd : Declared rs) (flip : Nat → B
   simp only [gaMutate, mutGenome, List.getElem_mapIdx]
   split
   · simp only [List.getElem?_eq_getElem h']
-    exact pick_in _ _ (hd _ (List.getElem_mem h'))
+    have := hd _ (List.getElem_mem h')
+    exact pickS_in _ _ _ this.1 (fun r hr => (this.2 r hr).1)
   · exact hx i hi h'
 
 /-- crossover keeps every gene inside its interval -/
-theorem ga_crossover_in_range (rs : List Iv) (u1 u2 : Nat) (l r : Ga)
-    (hl : InRange rs l.genome) (hr : InRange rs r.genome) :
-    InRange rs (gaCrossover u1 u2 l r).genome := by
+theorem ga_crossover_in_range (ss : List Slot) (u1 u2 : Nat) (l r : Ga)
+    (hl : InRange ss l.genome) (hr : InRange ss r.genome) :
+    InRange ss (gaCrossover u1 u2 l r).genome := by
   obtain ⟨hll, hl⟩ := hl
   obtain ⟨hrl, hr⟩ := hr
   simp only [gaCrossover]
@@ -55,13 +66,13 @@ theorem ga_crossover_in_range (rs : List Iv) (u1 u2 : Nat) (l r : Ga)
 
 /-- **ga_in_range**: everything reachable by creation, mutation and crossover (any operator
     sequence, any draws, any probabilities) has every gene inside the half-open interval declared for
-    its position. -/
-theorem ga_in_range (rs : List Iv) (hd : Declared rs) (x : Ga) (h : Reach rs x) :
-    InRange rs x.genome := by
+    its position (one of them when a category has several terminals). -/
+theorem ga_in_range (ss : List Slot) (hd : Declared ss) (x : Ga) (h : Reach ss x) :
+    InRange ss x.genome := by
   induction h with
-  | create u => exact ga_create_in_range rs hd u
-  | mutate flip u x _ ih => exact ga_mutation_in_range rs hd flip u x ih
-  | cross u1 u2 l r _ _ ihl ihr => exact ga_crossover_in_range rs u1 u2 l r ihl ihr
+  | create ch u => exact ga_create_in_range ss hd ch u
+  | mutate flip ch u x _ ih => exact ga_mutation_in_range ss hd flip ch u x ih
+  | cross u1 u2 l r _ _ ihl ihr => exact ga_crossover_in_range ss u1 u2 l r ihl ihr
 
 /-- a crossover child has the parents' length -/
 theorem ga_child_len (u1 u2 : Nat) (l r : Ga) (_h : l.genome.length = r.genome.length) :
@@ -89,19 +100,32 @@ theorem age_max (u1 u2 : Nat) (l r : Ga) : (gaCrossover u1 u2 l r).age = max l.a
 
 /-- mutation returns the number of genes it changed and leaves the age alone; with probability 0
     (no position selected) it is the identity -/
-theorem ga_mutation_count (rs flip u) (x : Ga) :
-    (gaMutate rs flip u x).2 = countDiff x.genome (gaMutate rs flip u x).1.genome ∧
-    (gaMutate rs flip u x).1.age = x.age := ⟨rfl, rfl⟩
+theorem ga_mutation_count (ss flip ch u) (x : Ga) :
+    (gaMutate ss flip ch u x).2 = countDiff x.genome (gaMutate ss flip ch u x).1.genome ∧
+    (gaMutate ss flip ch u x).1.age = x.age := ⟨rfl, rfl⟩
 
-theorem ga_mutation_zero (rs u) (x : Ga) : (gaMutate rs (fun _ => false) u x).1 = x := by
+theorem ga_mutation_zero (ss ch u) (x : Ga) : (gaMutate ss (fun _ => false) ch u x).1 = x := by
   have : ∀ (l : List Int), l.mapIdx (fun _ y => y) = l := by
     intro l; apply List.ext_getElem?; intro i; simp [List.getElem?_mapIdx]
   simp [gaMutate, mutGenome, this]
 
+/-- with probability 1 (every position selected) every gene is a fresh draw from its position's terminals -/
+theorem ga_mutation_one (ss : List Slot) (ch u) (x : Ga) (hl : x.genome.length = ss.length) :
+    (gaMutate ss (fun _ => true) ch u x).1.genome = (gaCreate ss ch u).genome := by
+  simp only [gaMutate, mutGenome, gaCreate]
+  apply List.ext_getElem?
+  intro i
+  simp only [List.getElem?_mapIdx, if_true]
+  by_cases hi : i < ss.length
+  · have hi' : i < x.genome.length := by omega
+    simp [List.getElem?_eq_getElem hi, List.getElem?_eq_getElem hi']
+  · simp [List.getElem?_eq_none (Nat.le_of_not_lt hi),
+      List.getElem?_eq_none (show x.genome.length ≤ i by omega)]
+
 /-- the modelled operators satisfy the step relations the driver decides on observed executions -/
-theorem ga_mutation_step (rs : List Iv) (hd : Declared rs) (flip u) (x : Ga) (hx : InRange rs x.genome) :
-    MutStep rs x (gaMutate rs flip u x).1 (gaMutate rs flip u x).2 :=
-  ⟨by simp [gaMutate, mutGenome], rfl, ga_mutation_in_range rs hd flip u x hx, rfl⟩
+theorem ga_mutation_step (ss : List Slot) (hd : Declared ss) (flip ch u) (x : Ga) (hx : InRange ss x.genome) :
+    MutStep ss x (gaMutate ss flip ch u x).1 (gaMutate ss flip ch u x).2 :=
+  ⟨by simp [gaMutate, mutGenome], rfl, ga_mutation_in_range ss hd flip ch u x hx, rfl⟩
 
 theorem ga_crossover_step (u1 u2 : Nat) (l r : Ga) (hlen : l.genome.length = r.genome.length)
     (hn : 2 ≤ r.genome.length) : XoStep l r (gaCrossover u1 u2 l r) := by
@@ -114,9 +138,9 @@ theorem ga_crossover_step (u1 u2 : Nat) (l r : Ga) (hlen : l.genome.length = r.g
 
 /-- an observed crossover accepted by the relation has the property: parents' length, one contiguous
     non-empty segment from `lhs`, the rest from `rhs`, the older parent's age; and stays in range -/
-theorem xoStep_sound (rs : List Iv) (l r child : Ga) (h : XoStep l r child)
-    (hl : InRange rs l.genome) (hr : InRange rs r.genome) :
-    InRange rs child.genome ∧ child.age = max l.age r.age := by
+theorem xoStep_sound (ss : List Slot) (l r child : Ga) (h : XoStep l r child)
+    (hl : InRange ss l.genome) (hr : InRange ss r.genome) :
+    InRange ss child.genome ∧ child.age = max l.age r.age := by
   obtain ⟨hlen, hage, c1, _, c2, _, _, hform⟩ := h
   refine ⟨⟨by rw [hlen, hr.1], ?_⟩, hage⟩
   intro i h h'
@@ -128,45 +152,26 @@ theorem xoStep_sound (rs : List Iv) (l r child : Ga) (h : XoStep l r child)
   · rw [Option.some.inj key]; exact hl.2 i hil h'
   · rw [Option.some.inj key]; exact hr.2 i hir h'
 
-/-! ## real vectors -/
-
 /-- **de_trial_form**: with ONE weight `f` for the whole trial, every position of the trial holds
-    either the target's value or `c + f·(a − b)`; the last position always holds the mutant value. -/
+    either the target's value or `c + f·(a − b)`; the last position always holds the mutant value;
+    a position whose Bernoulli draw is false (and is not the last) holds the target's value. -/
 theorem de_trial_form {F} (A : Arith F) (f : F) (flip : Nat → Bool) (t a b c : List F)
     (ha : a.length = t.length) (hb : b.length = t.length) (hc : c.length = t.length) :
     ∀ i (hi : i < t.length),
       let m := mutant A f (c[i]'(by omega)) (a[i]'(by omega)) (b[i]'(by omega))
       ((trial A f flip t a b c)[i]? = some t[i] ∨ (trial A f flip t a b c)[i]? = some m) ∧
-      (i = t.length - 1 → (trial A f flip t a b c)[i]? = some m) := by
-  induction t generalizing a b c flip with
-  | nil => intro i hi; simp at hi
-  | cons x ts ih =>
-    match a, b, c, ha, hb, hc with
-    | a :: as, b :: bs, c :: cs, ha, hb, hc =>
-      cases ts with
-      | nil =>
-        have : as = [] := List.eq_nil_of_length_eq_zero (by simpa using ha)
-        have : bs = [] := List.eq_nil_of_length_eq_zero (by simpa using hb)
-        have : cs = [] := List.eq_nil_of_length_eq_zero (by simpa using hc)
-        subst_vars
-        intro i hi
-        have : i = 0 := by simpa using hi
-        subst this
-        simp [trial]
-      | cons y ys =>
-        match as, bs, cs, ha, hb, hc with
-        | a2 :: as, b2 :: bs, c2 :: cs, ha, hb, hc =>
-          intro i hi
-          cases i with
-          | zero =>
-            simp only [trial, List.getElem?_cons_zero, List.getElem_cons_zero, List.length_cons]
-            refine ⟨?_, by omega⟩
-            split <;> simp
-          | succ j =>
-            have := ih (fun i => flip (i + 1)) (a2 :: as) (b2 :: bs) (c2 :: cs)
-              (by simpa using ha) (by simpa using hb) (by simpa using hc) j (by simpa using hi)
-            simp only [trial, List.getElem?_cons_succ, List.getElem_cons_succ, List.length_cons] at this ⊢
-            refine ⟨this.1, fun h => this.2 (by omega)⟩
+      (i = t.length - 1 → (trial A f flip t a b c)[i]? = some m) ∧
+      (i ≠ t.length - 1 → flip i = false → (trial A f flip t a b c)[i]? = some t[i]) ∧
+      (flip i = true → (trial A f flip t a b c)[i]? = some m) := by
+  intro i hi
+  have key := trial_get A f flip t a b c ha hb hc i hi
+  refine ⟨?_, ?_, ?_, ?_⟩
+  · rw [key]; split
+    · exact Or.inr rfl
+    · exact Or.inl rfl
+  · intro h; rw [key, if_pos (Or.inl h)]
+  · intro h1 h2; rw [key, if_neg (by simp [h1, h2])]
+  · intro h; rw [key, if_pos (Or.inr h)]
 
 /-- **de_age**: the trial's age is the maximum of the ages of the target and the three donors -/
 theorem de_age {F} (A : Arith F) (rf : F) (flip) (t a b c : De F) :
@@ -175,7 +180,7 @@ theorem de_age {F} (A : Arith F) (rf : F) (flip) (t a b c : De F) :
   split <;> omega
 
 /-- **de_in_box** (exact arithmetic): a real gene created as `lo + (hi − lo)·u`, `u ∈ [0, 1)`, lies in
-    `[lo, hi)`.  Under IEEE rounding the upper bound becomes `≤ hi` – checked bit-exactly by the tie. -/
+    `[lo, hi)`.  The IEEE reading: `de_in_box_ieee`, `de_in_box_halfopen` below. -/
 theorem de_in_box (lo hi u : Rat) (h : lo < hi) (hu0 : 0 ≤ u) (hu1 : u < 1) :
     lo ≤ realInit lo hi u ∧ realInit lo hi u < hi := by
   unfold realInit
@@ -184,11 +189,390 @@ theorem de_in_box (lo hi u : Rat) (h : lo < hi) (hu0 : 0 ≤ u) (hu1 : u < 1) :
   have h2 : (hi - lo) * u < (hi - lo) * 1 := Rat.mul_lt_mul_of_pos_left hu1 hw
   constructor <;> grind
 
+/-! ## Part 2 — the extracted code is the specification -/
+
+/-- `number<int>::init()` through `random::in` / `between<int>` / `uniform_int_distribution(min, sup − 1)`:
+    no `int` operation overflows for any declared interval (even `[INT_MIN, INT_MAX)`), and the value is the
+    specification's draw – inside `[lo, hi)` -/
+theorem code_gene_draw (r : Iv) (u : Nat) (h1 : In .i32 r.lo) (h2 : In .i32 r.hi) (h : r.lo < r.hi) :
+    Gen.initInt.drawInt Gen.randInt r u = pick r u ∧
+    r.lo ≤ Gen.initInt.drawInt Gen.randInt r u ∧ Gen.initInt.drawInt Gen.randInt r u < r.hi := by
+  rw [gen_drawInt r u h1 h2 h]
+  exact ⟨rfl, pick_in r u h⟩
+
+/-- `vita::range(m, u)` keeps each endpoint at the type the user wrote it in (the i-th component has the deduced type of
+    the i-th argument and is built from it): no endpoint is converted before the problem / the environment receives
+    it, so the recorded interval is the declared one -/
+theorem code_range_helper :
+    Gen.range = { firstTy := .tparam 0, secondTy := .tparam 1, firstFrom := 0, secondFrom := 1 } := by decide
+
+/-- the generated `init` goes through `random::in(range_)` and the value travels through a double -/
+theorem code_init_shape : Gen.initInt.src = .inRange ∧ Gen.initReal.src = .inRange ∧
+    Gen.initInt.elemTy = some .i32 ∧ Gen.initReal.elemTy = none := by decide
+
+/-- `i_ga(problem)`: gene `k` comes from a terminal of category `k` (the captured `int` counter does not
+    overflow below 2^31 genes) and the constructor is the specification's `gaCreate` -/
+theorem code_create (ss : List Slot) (hd : Declared ss) (hn : ss.length < 2147483648) (ch u : Nat → Nat) :
+    Gen.gaCtor.run Gen.initInt Gen.randInt ss ch u = gaCreate ss ch u ∧
+    (∀ k < 2147483648, Gen.gaCtor.term k = k ∧ Gen.deCtor.term k = k) ∧
+    Gen.gaCtor.sizeIsCategories = true ∧ Gen.gaCtor.wholeGenome = true ∧
+    Gen.deCtor.sizeIsCategories = true ∧ Gen.deCtor.wholeGenome = true :=
+  ⟨gen_gaCtor_run ss hd hn ch u, fun k hk => ⟨gen_gaCtor_term k hk, gen_deCtor_term k hk⟩,
+   by decide, by decide, by decide, by decide⟩
+
+/-- `i_ga::mutation` as written is the specification's `gaMutate`, returned count included -/
+theorem code_mutation (ss : List Slot) (hd : Declared ss) (flip : Nat → Bool) (ch u : Nat → Nat) (x : Ga)
+    (hl : x.genome.length = ss.length) (hN : ss.length < 4294967296) :
+    Gen.gaMut.run Gen.initInt Gen.randInt ss flip ch u x = gaMutate ss flip ch u x ∧
+    Gen.gaMut.guardIsBooleanOfPgm = true ∧ Gen.gaMut.returnsCounter = true ∧ Gen.gaMut.touchesAge = false :=
+  ⟨gen_gaMut_run ss hd flip ch u x hl hN, by decide, by decide, by decide⟩
+
+/-- `crossover(lhs, rhs)` as written (cut points in `unsigned long`, ages in the member's type) is the
+    specification's `gaCrossover` -/
+theorem code_crossover (u1 u2 : Nat) (l r : Ga) (hlen : l.genome.length = r.genome.length)
+    (hn : 2 ≤ r.genome.length) (hN : r.genome.length < 9223372036854775808)
+    (hal : l.age < 4294967296) (har : r.age < 4294967296) :
+    Gen.gaXo.run Gen.age Gen.randIdx u1 u2 l r = gaCrossover u1 u2 l r :=
+  gen_gaXo_run u1 u2 l r hlen hn hN hal har
+
+/-- everything the extracted operators can build -/
+inductive ReachC (ss : List Slot) : Ga → Prop
+  | create (ch u) : ReachC ss (Gen.gaCtor.run Gen.initInt Gen.randInt ss ch u)
+  | mutate (flip ch u x) : ReachC ss x → ReachC ss (Gen.gaMut.run Gen.initInt Gen.randInt ss flip ch u x).1
+  | cross (u1 u2 l r) : ReachC ss l → ReachC ss r → ReachC ss (Gen.gaXo.run Gen.age Gen.randIdx u1 u2 l r)
+
+/-- **code_ga_in_range**: every individual the EXTRACTED constructor / mutation / crossover can build – any
+    operator sequence, draws, probabilities; chromosomes of 2 … 2^31−1 genes – has every gene inside the interval
+    declared for its position, has the declared length and an age the member can hold. -/
+theorem code_ga_in_range (ss : List Slot) (hd : Declared ss) (hn : 2 ≤ ss.length) (hN : ss.length < 2147483648)
+    (x : Ga) (h : ReachC ss x) : InRange ss x.genome ∧ Reach ss x ∧ x.age < 4294967296 := by
+  induction h with
+  | create ch u =>
+    rw [gen_gaCtor_run ss hd hN ch u]
+    exact ⟨ga_create_in_range ss hd ch u, Reach.create ch u, by simp [gaCreate]⟩
+  | mutate flip ch u x _ ih =>
+    rw [gen_gaMut_run ss hd flip ch u x ih.1.1 (by omega)]
+    exact ⟨ga_mutation_in_range ss hd flip ch u x ih.1, Reach.mutate flip ch u x ih.2.1, ih.2.2⟩
+  | cross u1 u2 l r _ _ ihl ihr =>
+    rw [gen_gaXo_run u1 u2 l r (by rw [ihl.1.1, ihr.1.1]) (by rw [ihr.1.1]; omega) (by rw [ihr.1.1]; omega)
+      ihl.2.2 ihr.2.2]
+    refine ⟨ga_crossover_in_range ss u1 u2 l r ihl.1 ihr.1, Reach.cross u1 u2 l r ihl.2.1 ihr.2.1, ?_⟩
+    rw [age_max]; have := ihl.2.2; have := ihr.2.2; omega
+
+/-- **code_segment**: the child the extracted crossover builds has the parents' length, equals `lhs` on one
+    contiguous non-empty segment `[c1, c2)`, `c2 ≤ n − 1`, and `rhs` elsewhere, and carries the older age -/
+theorem code_segment (u1 u2 : Nat) (l r : Ga) (hlen : l.genome.length = r.genome.length)
+    (hn : 2 ≤ r.genome.length) (hN : r.genome.length < 9223372036854775808)
+    (hal : l.age < 4294967296) (har : r.age < 4294967296) :
+    (Gen.gaXo.run Gen.age Gen.randIdx u1 u2 l r).genome.length = r.genome.length ∧
+    (Gen.gaXo.run Gen.age Gen.randIdx u1 u2 l r).age = max l.age r.age ∧
+    ∃ c1 c2, c1 < c2 ∧ c2 ≤ r.genome.length - 1 ∧
+      ∀ i, (Gen.gaXo.run Gen.age Gen.randIdx u1 u2 l r).genome[i]? =
+        if c1 ≤ i ∧ i < c2 then l.genome[i]? else r.genome[i]? := by
+  rw [gen_gaXo_run u1 u2 l r hlen hn hN hal har]
+  exact ⟨ga_child_len u1 u2 l r hlen, age_max u1 u2 l r, ga_segment u1 u2 l r hlen hn⟩
+
+/-- **code_de_crossover**: `i_de::crossover` as written (loop bounds in `unsigned long`, the formula
+    `ret[i] += rf * (a[i] − b[i])`, the forced last position, `set_older_age(max{…})`) is the specification's
+    trial vector, for every number type and arithmetic; hence `de_trial_form` and `de_age` hold for it -/
+theorem code_de_crossover {F} [Inhabited F] (A : Arith F) (rf : F) (flip : Nat → Bool) (t a b c : De F)
+    (ha : a.genome.length = t.genome.length) (hb : b.genome.length = t.genome.length)
+    (hc : c.genome.length = t.genome.length) (hn : 1 ≤ t.genome.length)
+    (hN : t.genome.length < 9223372036854775808)
+    (hat : t.age < 4294967296) (haa : a.age < 4294967296) (hab : b.age < 4294967296) (hac : c.age < 4294967296) :
+    Gen.deXo.run Gen.age A rf flip t a b c = deCrossover A rf flip t a b c ∧
+    (Gen.deXo.run Gen.age A rf flip t a b c).age = max (max t.age c.age) (max a.age b.age) ∧
+    Gen.deXo.ditherIsInOfF = true ∧ Gen.deXo.guardIsBooleanOfP = true := by
+  rw [gen_deXo_run A rf flip t a b c ha hb hc hn hN hat haa hab hac]
+  exact ⟨rfl, de_age A rf flip t a b c, by decide, by decide⟩
+
+/-! ## Part 3 — ages at the machine type of the code -/
+
+/-- the four age primitives as written compute the ideal values below 2^32: `age()` returns what is stored,
+    `inc_age()` adds one, `set_older_age(r)` stores the maximum, `load` stores the number read -/
+theorem code_age_exact (s r : Int) (h0 : 0 ≤ s) (h1 : s < 4294967296) (h2 : 0 ≤ r) (h3 : r < 4294967296) :
+    Gen.age.read s = s ∧ (s + 1 < 4294967296 → Gen.age.incr s = s + 1) ∧
+    Gen.age.older s r = max s r ∧ Gen.age.load r = some r :=
+  ⟨gen_age_read s h0 h1, fun h => gen_age_incr s h0 h, gen_age_older s r h0 h1 h2 h3, gen_age_load r h2 h3⟩
+
+/-- **age_no_wrap**: along ANY history of `inc_age` / `load` / `set_older_age` whose ideal ages stay below 2^32,
+    the stored age is the number of generations lived – no wrap, no truncation.  (Narrowing the member or a
+    parameter makes the generated `Gen.age` fail this theorem.) -/
+theorem age_no_wrap (ops : List AgeOp) (a0 : Nat) (h0 : a0 < 4294967296)
+    (hb : ∀ k ≤ ops.length, (ops.take k).foldl AgeOp.ideal a0 < 4294967296)
+    (hr : ∀ op ∈ ops, match op with | .load v => v < 4294967296 | .older r => r < 4294967296 | .inc => True) :
+    ops.foldl (AgeOp.machine Gen.age) (a0 : Int) = ((ops.foldl AgeOp.ideal a0 : Nat) : Int) := by
+  induction ops generalizing a0 with
+  | nil => rfl
+  | cons op rest ih =>
+    simp only [List.foldl_cons]
+    have h1 := hb 1 (by simp)
+    simp only [List.take_succ_cons, List.take_zero, List.foldl_cons, List.foldl_nil] at h1
+    have hop := hr op (by simp)
+    have hstep : AgeOp.machine Gen.age (a0 : Int) op = ((AgeOp.ideal a0 op : Nat) : Int) := by
+      cases op with
+      | inc =>
+        simp only [AgeOp.machine, AgeOp.ideal] at h1 ⊢
+        rw [gen_age_incr _ (by omega) (by omega)]; omega
+      | load v =>
+        simp only [AgeOp.machine, AgeOp.ideal] at hop ⊢
+        rw [gen_age_load _ (by omega) (by omega)]; rfl
+      | older r =>
+        simp only [AgeOp.machine, AgeOp.ideal] at hop ⊢
+        rw [gen_age_older _ _ (by omega) (by omega) (by omega) (by omega)]; omega
+    rw [hstep]
+    apply ih _ h1
+    · intro k hk
+      have := hb (k + 1) (by simp; omega)
+      simpa [List.take_succ_cons] using this
+    · intro op' hop'
+      exact hr op' (by simp [hop'])
+
+/-! ## Part 4 — strategy-level call sites -/
+
+/-- `recombination::de<T>::run` as written: the target is `parent[0]`, the crossover probability and the weight
+    interval are the CONFIGURED ones (`env.p_cross`, `env.de.weight`, passed through unchanged), `a` is `parent[1]`
+    (a random neighbour when the tournament has size 1), `b` and the base vector `c` are random neighbours -/
+theorem code_de_run_site :
+    Gen.deRun = { target := .parent 0, p := .pCross, f := .deWeight,
+                  a := .ifParents 1 (.parent 1) (.pickup (.parent 0)),
+                  b := .pickup (.parent 0), c := .pickup (.parent 0) } := by decide
+
+/-- `recombination::base<T>::run` as written: crossover of `pop[parent[0]]` (lhs) with `pop[parent[1]]` (rhs; a random
+    neighbour when the tournament has size 1) with probability `env.p_cross`, followed by signature-repulsion
+    mutations with `env.p_mutation` only when `env.p_mutation > 0`, `brood_recombination` candidates; otherwise a
+    copy of one of the two parents mutated with `env.p_mutation` -/
+theorem code_ga_run_site :
+    Gen.gaRun = { r1 := .parent 0, r2 := .ifParents 1 (.parent 1) (.pickup (.parent 0)),
+                  crossGuard := .pCross, lhs := .parent 0,
+                  rhs := .ifParents 1 (.parent 1) (.pickup (.parent 0)),
+                  mutGuardPositive := .pMutation, mutP := .pMutation, broodCount := .brood,
+                  elseCopy := .flip (.parent 0) (.ifParents 1 (.parent 1) (.pickup (.parent 0))),
+                  elseMutP := .pMutation } := by decide
+
+/-- whatever the selection returned (1 or more parents), every coordinate the DE strategy uses denotes an
+    individual of the population, and the target is the first selected parent -/
+theorem code_de_run_coords (sel : List Nat) (n : Nat) (hs : sel ≠ []) (hsel : ∀ i ∈ sel, i < n) :
+    (∀ i, Gen.deRun.target.Denotes sel n i → sel[0]? = some i) ∧
+    (∀ i, Gen.deRun.a.Denotes sel n i → i < n ∧ (1 < sel.length → sel[1]? = some i)) ∧
+    (∀ i, Gen.deRun.b.Denotes sel n i → i < n) ∧ (∀ i, Gen.deRun.c.Denotes sel n i → i < n) := by
+  have hp : ∀ k i, Coord.Denotes sel n (.parent k) i → sel[k]? = some i ∧ i < n := by
+    intro k i h; cases h with
+    | parent _ _ h => exact ⟨h, hsel i (List.mem_of_getElem? h)⟩
+  have hk : ∀ c i, Coord.Denotes sel n (.pickup c) i → i < n := by
+    intro c i h; cases h with
+    | pickup _ _ _ _ h => exact h
+  simp only [Gen.deRun]
+  refine ⟨fun i h => (hp 0 i h).1, ?_, fun i h => hk _ i h, fun i h => hk _ i h⟩
+  intro i h
+  cases h with
+  | ifT _ _ _ _ hl ht => exact ⟨(hp 1 i ht).2, fun _ => (hp 1 i ht).1⟩
+  | ifE _ _ _ _ hl he => exact ⟨hk _ i he, fun h1 => absurd h1 hl⟩
+
+/-- the signature-repulsion loop (`while the child equals a parent: mutate`) keeps every gene in range, the age and
+    the length; when its mutations changed nothing in total the individual is unchanged -/
+theorem mutation_loop_inv (ss : List Slot) (hd : Declared ss) (x y : Ga) (n : Nat) (h : MutStar ss x n y)
+    (hx : InRange ss x.genome) :
+    InRange ss y.genome ∧ y.age = x.age ∧ (n = 0 → y = x) := by
+  induction h with
+  | refl => exact ⟨hx, rfl, fun _ => rfl⟩
+  | step y' n' flip ch u _ ih =>
+    obtain ⟨h1, h2, h3⟩ := ih
+    refine ⟨ga_mutation_in_range ss hd flip ch u y' h1, by simp [gaMutate, h2], ?_⟩
+    intro h0
+    have hn : n' = 0 := by omega
+    have hc : (gaMutate ss flip ch u y').2 = 0 := by omega
+    have hy := h3 hn
+    have hg : (gaMutate ss flip ch u y').1.genome = y'.genome := by
+      have := countDiff_zero y'.genome (gaMutate ss flip ch u y').1.genome (by simp [gaMutate, mutGenome])
+        (by simpa [gaMutate] using hc)
+      exact this.symm
+    rw [← hy]
+    cases y' with
+    | mk g a => simp only [gaMutate] at hg ⊢; simp [hg]
+
+/-- the second parent `recombination::base::run` can use: `parent[1]`, or any individual when only one was selected -/
+def secondParents (pop : List Ga) : List Nat → List Ga
+  | _ :: j :: _ => (pop[j]?).toList
+  | _ => pop
+
+/-- **ga_run_sound**: whatever `recombination::base<i_ga>::run` returns along the EXTRACTED call site – crossover of
+    `pop[parent[0]]` with the second parent (+ repulsion mutations, `brood_recombination` candidates) or a mutated
+    copy of one parent – satisfies the relation the driver decides on observed calls: genes in range; after a
+    crossover the older parent's age and, when no mutation changed anything, the two-point segment shape; after a
+    copy the copied parent's age and exactly `mutations` changed genes. -/
+theorem ga_run_sound (ss : List Slot) (hd : Declared ss) (hn : 2 ≤ ss.length) (env : RunEnv) (pop : List Ga)
+    (sel : List Nat) (off : Ga) (dc dm : Nat) (hpop : ∀ p ∈ pop, InRange ss p.genome)
+    (hsel : ∀ i ∈ sel, i < pop.length) (h : Gen.gaRun.Run ss env pop sel off dc dm) :
+    ∃ i1 p1, sel[0]? = some i1 ∧ pop[i1]? = some p1 ∧
+      GsStep ss (max 1 env.brood) p1 (secondParents pop sel) off dc dm := by
+  have hp0 : ∀ i, Coord.Denotes sel pop.length (.parent 0) i → sel[0]? = some i := by
+    intro i h; cases h with | parent _ _ h => exact h
+  have hp1 : ∀ i, Coord.Denotes sel pop.length (.parent 1) i → sel[1]? = some i := by
+    intro i h; cases h with | parent _ _ h => exact h
+  -- the second parent is one of `secondParents`
+  have hsec : ∀ i p, Coord.Denotes sel pop.length (.ifParents 1 (.parent 1) (.pickup (.parent 0))) i →
+      pop[i]? = some p → p ∈ secondParents pop sel := by
+    intro i p h hp
+    cases h with
+    | ifT _ _ _ _ hl ht =>
+      have := hp1 i ht
+      match sel, this, hl with
+      | _ :: j :: _, this, _ =>
+        simp only [List.getElem?_cons_succ, List.getElem?_cons_zero, Option.some.injEq] at this
+        subst this
+        simp [secondParents, hp]
+    | ifE _ _ _ _ hl he =>
+      match sel, hl with
+      | [], _ => simp [secondParents]; exact List.mem_of_getElem? hp
+      | [_], _ => simp [secondParents]; exact List.mem_of_getElem? hp
+      | _ :: _ :: _, hl => simp at hl
+  cases h with
+  | cross i1 i2 p1 p2 cs off h1 h2 hp1' hp2' hb hlen hc hoff =>
+    simp only [Gen.gaRun] at h1 h2
+    refine ⟨i1, p1, hp0 i1 h1, hp1', ?_⟩
+    have hin1 := hpop p1 (List.mem_of_getElem? hp1')
+    have hin2 := hpop p2 (List.mem_of_getElem? hp2')
+    obtain ⟨u1, u2, hms, _⟩ := hc off hoff
+    have hx := ga_crossover_in_range ss u1 u2 p1 p2 hin1 hin2
+    obtain ⟨hr, ha, hz⟩ := mutation_loop_inv ss hd _ _ _ hms hx
+    refine ⟨hr, ?_⟩
+    have hne : cs.length ≠ 0 := by omega
+    rw [if_neg hne]
+    refine ⟨hlen, p2, hsec i2 p2 h2 hp2', ?_, ?_, ?_⟩
+    · rw [ha, age_max]
+    · rw [hr.1, hin2.1]
+    · intro hdm
+      have h0 : off.2 = 0 := sum_zero_mem _ hdm off.2 (List.mem_map.mpr ⟨off, hoff, rfl⟩)
+      rw [hz h0]
+      exact ga_crossover_step u1 u2 p1 p2 (by rw [hin1.1, hin2.1]) (by rw [hin2.1]; exact hn)
+  | copy i p flip ch u hi hp =>
+    simp only [Gen.gaRun] at hi
+    have hin := hpop p (List.mem_of_getElem? hp)
+    have hmem : ∃ i1 p1, sel[0]? = some i1 ∧ pop[i1]? = some p1 ∧ p ∈ p1 :: secondParents pop sel := by
+      cases hi with
+      | flipT _ _ _ ht => exact ⟨i, p, hp0 i ht, hp, by simp⟩
+      | flipE _ _ _ he =>
+        have hps := hsec i p he hp
+        -- the first selected parent exists
+        cases he with
+        | ifT _ _ _ _ hl _ =>
+          match sel, hl, hsel with
+          | i0 :: _ :: _, _, hsel =>
+            have hlt : i0 < pop.length := hsel i0 (by simp)
+            exact ⟨i0, pop[i0], by simp, List.getElem?_eq_getElem hlt, List.mem_cons_of_mem _ hps⟩
+        | ifE _ _ _ _ hl hk =>
+          cases hk with
+          | pickup _ j _ hj _ =>
+            have hj0 := hp0 j hj
+            have hlt : j < pop.length := hsel j (List.mem_of_getElem? hj0)
+            exact ⟨j, pop[j], hj0, List.getElem?_eq_getElem hlt, List.mem_cons_of_mem _ hps⟩
+    obtain ⟨i1, p1, hs0, hp1', hmem⟩ := hmem
+    refine ⟨i1, p1, hs0, hp1', ga_mutation_in_range ss hd flip ch u p hin, ?_⟩
+    rw [if_pos rfl]
+    exact ⟨p, hmem, rfl, by simp [gaMutate, mutGenome], rfl⟩
+
+/-- **de_run_sound**: whatever `recombination::de<i_de>::run` returns along the extracted call site is the trial
+    vector of the FIRST selected parent, with `parent[1]` (when the tournament returned two) as first donor,
+    population members as second donor and base, and ONE weight from the configured interval `env.de.weight`
+    (`inW`) – `de_trial_form` and `de_age` apply to it. -/
+theorem de_run_sound {F} (A : Arith F) (inW : F → Prop) (pop : List (De F)) (sel : List Nat) (off : De F)
+    (hs : sel ≠ []) (hsel : ∀ i ∈ sel, i < pop.length) (h : Gen.deRun.Run A inW pop sel off) :
+    ∃ (it ia ib ic : Nat) (t a b c : De F) (rf : F) (flip : Nat → Bool),
+      sel[0]? = some it ∧ (1 < sel.length → sel[1]? = some ia) ∧
+      pop[it]? = some t ∧ pop[ia]? = some a ∧ pop[ib]? = some b ∧ pop[ic]? = some c ∧ inW rf ∧
+      off = deCrossover A rf flip t a b c := by
+  have hc := code_de_run_coords sel pop.length hs hsel
+  cases h with
+  | mk it ia ib ic t a b c rf flip h1 h2 h3 h4 g1 g2 g3 g4 _ _ hw =>
+    exact ⟨it, ia, ib, ic, t, a, b, c, rf, flip, hc.1 it h1, (hc.2.1 ia h2).2, g1, g2, g3, g4, hw, rfl⟩
+
+/-! ## Part 5 — real genes under IEEE rounding -/
+
+/-- **de_in_box_ieee**: `std::uniform_real_distribution(lo, hi)` evaluated as `fl(fl(u·fl(hi − lo)) + lo)` for a
+    canonical value `0 ≤ u ≤ umax < 1` and representable `lo < hi` (finite width) lies in the CLOSED box
+    `[lo, hi]` – it never exceeds `hi`, but `hi` itself is not excluded (see `de_hits_hi`). -/
+theorem de_in_box_ieee (R : Rounding) (lo hi u : Rat) (hlo : R.rnd lo = lo) (hhi : R.rnd hi = hi)
+    (h : lo < hi) (hu0 : 0 ≤ u) (hu1 : u ≤ R.umax) :
+    lo ≤ R.uniformReal lo hi u ∧ R.uniformReal lo hi u ≤ hi := by
+  unfold Rounding.uniformReal
+  have hw0 : 0 ≤ R.rnd (hi - lo) := by
+    have := R.mono 0 (hi - lo) (by grind); rw [R.zero] at this; exact this
+  have hy0 : 0 ≤ R.rnd (u * R.rnd (hi - lo)) := by
+    have := R.mono 0 (u * R.rnd (hi - lo)) (Rat.mul_nonneg hu0 hw0); rw [R.zero] at this; exact this
+  have hyw : R.rnd (u * R.rnd (hi - lo)) ≤ R.rnd (hi - lo) := by
+    have h1 : u * R.rnd (hi - lo) ≤ 1 * R.rnd (hi - lo) :=
+      Rat.mul_le_mul_of_nonneg_right (by have := R.umax_lt; grind) hw0
+    have := R.mono _ _ h1
+    rw [Rat.one_mul, R.idem] at this
+    exact this
+  constructor
+  · have := R.mono lo (R.rnd (u * R.rnd (hi - lo)) + lo) (by grind)
+    rw [hlo] at this; exact this
+  · by_cases he : R.rnd (u * R.rnd (hi - lo)) = R.rnd (hi - lo)
+    · have hex := R.absorb u lo hi hu0 hu1 hlo hhi h he
+      rw [he, hex]
+      have : hi - lo + lo = hi := by grind
+      rw [this, hhi]; exact Rat.le_refl
+    · have hlt : R.rnd (u * R.rnd (hi - lo)) < R.rnd (hi - lo) := by grind
+      have hle : R.rnd (u * R.rnd (hi - lo)) ≤ hi - lo := by
+        apply Classical.byContradiction
+        intro hc
+        have h2 := R.mono (hi - lo) (R.rnd (u * R.rnd (hi - lo))) (by grind)
+        rw [R.idem] at h2
+        grind
+      have := R.mono (R.rnd (u * R.rnd (hi - lo)) + lo) hi (by grind)
+      rw [hhi] at this; exact this
+
+/-- **de_hits_hi** – when the upper bound is reached: only if NO representable number lies between the exact sum
+    `fl(u·w) + lo` and `hi`, i.e. the sum is in the last half-ulp below `hi` (boxes a few ulps wide, or the largest
+    `u`): any representable `z` with `fl(u·w) + lo ≤ z < hi` keeps the result `≤ z < hi`. -/
+theorem de_hits_hi (R : Rounding) (lo hi u z : Rat) (hz : R.rnd z = z)
+    (hle : R.rnd (u * R.rnd (hi - lo)) + lo ≤ z) (hzh : z < hi) : R.uniformReal lo hi u < hi := by
+  unfold Rounding.uniformReal
+  have := R.mono _ _ hle
+  rw [hz] at this
+  grind
+
+/-- **code_real_in_box**: `random::in(range)` → `random::between<double>(min, sup)` AS WRITTEN (the extracted
+    return expression `ret < sup ? ret : nextafter(sup, min)`) yields a value of the HALF-OPEN box `[lo, hi)` for
+    every canonical draw – "randomly created real vectors lie inside the declared box". -/
+theorem code_real_in_box (R : Rounding) (lo hi u : Rat) (hlo : R.rnd lo = lo) (hhi : R.rnd hi = hi)
+    (h : lo < hi) (hu0 : 0 ≤ u) (hu1 : u ≤ R.umax) :
+    lo ≤ Gen.randReal.in_ R lo hi u ∧ Gen.randReal.in_ R lo hi u < hi := by
+  have hb := de_in_box_ieee R lo hi u hlo hhi h hu0 hu1
+  simp only [RandReal.in_, RandReal.between, Gen.randReal, RE.evalQ]
+  split
+  · exact ⟨hb.1, by assumption⟩
+  · exact ⟨R.next_ge lo hi hlo hhi h, R.next_lt lo hi hlo hhi h⟩
+
+/-- the width guard of `between<double>` is present in the extracted code (an interval whose width is not
+    representable is drawn at half scale; outside the rational model, checked by the tie) -/
+theorem code_real_wide_guard : Gen.randReal.halvesWhenWide = true := by decide
+
 /-! ### non-vacuity -/
-example : Declared [⟨-3, 4⟩, ⟨0, 1⟩, ⟨-2147483648, 2147483647⟩] := by
-  intro r hr; simp at hr; rcases hr with rfl | rfl | rfl <;> decide
+example : ∃ R : Rounding, R.rnd (1 / 3) = 1 / 3 := ⟨Rounding.exact, rfl⟩
+example : Declared [[⟨-3, 4⟩], [⟨0, 1⟩, ⟨5, 9⟩], [⟨-2147483648, 2147483647⟩]] := by
+  intro s hs
+  simp at hs
+  rcases hs with rfl | rfl | rfl <;> refine ⟨by simp, ?_⟩ <;> intro r hr <;> simp at hr
+  · subst hr; decide
+  · rcases hr with rfl | rfl <;> decide
+  · subst hr; decide
 example : (gaCrossover 7 5 ⟨[1, 2, 3, 4, 5], 3⟩ ⟨[10, 20, 30, 40, 50], 9⟩) = ⟨[10, 20, 30, 4, 50], 9⟩ := by
   decide
-example : (gaCreate [⟨-3, 4⟩, ⟨0, 1⟩] (fun i => 10 + i)).genome = [0, 0] := by decide
+example : (gaCreate [[⟨-3, 4⟩], [⟨0, 1⟩, ⟨5, 9⟩]] (fun i => i) (fun i => 10 + i)).genome = [0, 8] := by decide
+example : (Gen.gaXo.run Gen.age Gen.randIdx 7 5 ⟨[1, 2, 3, 4, 5], 70000⟩ ⟨[10, 20, 30, 40, 50], 4294967295⟩)
+    = ⟨[10, 20, 30, 4, 50], 4294967295⟩ := by decide
+example : [AgeOp.load 65535, .inc, .older 70000, .inc].foldl (AgeOp.machine Gen.age) 0 = 70001 := by decide
+example : ([AgeOp.load 65535, .inc, .older 70000, .inc].take 4).foldl AgeOp.ideal 0 < 4294967296 := by decide
+example : Gen.gaRun.Run [[⟨0, 9⟩], [⟨0, 9⟩]] ⟨false, 1⟩ [⟨[1, 2], 3⟩, ⟨[4, 5], 70000⟩] [0, 1]
+    (gaCrossover 0 0 ⟨[1, 2], 3⟩ ⟨[4, 5], 70000⟩) 1 0 :=
+  .cross 0 1 ⟨[1, 2], 3⟩ ⟨[4, 5], 70000⟩ [(gaCrossover 0 0 ⟨[1, 2], 3⟩ ⟨[4, 5], 70000⟩, 0)]
+    (gaCrossover 0 0 ⟨[1, 2], 3⟩ ⟨[4, 5], 70000⟩, 0)
+    (.parent _ _ rfl) (.ifT _ _ _ _ (by decide) (.parent _ _ rfl)) rfl rfl rfl rfl
+    (by intro c hc; simp at hc; subst hc; exact ⟨0, 0, .refl _, fun _ => rfl⟩) (by simp)
+example : Gen.deRun.a.Denotes [3, 5] 8 5 := .ifT _ _ _ _ (by decide) (.parent _ _ rfl)
+example : Gen.deRun.a.Denotes [3] 8 6 := .ifE _ _ _ _ (by decide) (.pickup _ 3 _ (.parent _ _ rfl) (by decide))
 
 end Vita.C17
